@@ -396,3 +396,152 @@ def peel_c(c):
     while c.get("k") in ("DropTemps", "Use"):
         c = c["e"]
     return c
+
+
+def _text_atoms(spec):
+    """classifier from [(atom name, predicate on ekey text, negated-name or None)]"""
+    def classify(e):
+        t = ekey(e)
+        for name, pred in spec:
+            if pred(e, t):
+                return name
+        return None
+    return classify
+
+
+def _mentions_path(e, suffix):
+    return any(x.get("k") == "Path" and (x.get("res") or "").endswith(suffix) for x in walk(e, pats=False))
+
+
+TRIGGERS = [
+    # (lint type suffix, LintError variant, atom classifiers, expected(env) -> bool, atoms, what)
+    ("SaveToZeroCheck", "SaveToZero",
+     [("x0", lambda e, t: e.get("k") == "Binary" and e["op"] == "Eq" and _mentions_path(e, "Register::X0")),
+      ("skip", lambda e, t: e.get("k") == "MethodCall" and e["name"] == "can_skip_save_checks")],
+     lambda v: v["x0"] and not v["skip"], ["x0", "skip"], "a write to x0 by an instruction that is not exempt"),
+    ("DeadValueCheck", "DeadAssignment",
+     [("live", lambda e, t: e.get("k") == "MethodCall" and e["name"] == "contains" and "live_out" in t),
+      ("skip", lambda e, t: e.get("k") == "MethodCall" and e["name"] == "can_skip_save_checks")],
+     lambda v: (not v["live"]) and not v["skip"], ["live", "skip"], "a written register that is not live afterwards"),
+    ("EcallCheck", "UnknownEcall",
+     [("ecall", lambda e, t: e.get("k") == "MethodCall" and e["name"] == "is_ecall"),
+      ("unknown", lambda e, t: e.get("k") == "MethodCall" and e["name"] == "is_none" and "known_ecall" in t),
+      ("known", lambda e, t: e.get("k") == "MethodCall" and e["name"] == "is_some" and "known_ecall" in t)],
+     lambda v: v["ecall"] and v["unknown"], ["ecall", "unknown"], "an ecall whose number is not known"),
+    ("CalleeSavedGarbageReadCheck", "InvalidUseBeforeAssignment",
+     [("saved", lambda e, t: e.get("k") == "MethodCall" and e["name"] == "contains" and "saved_set" in t),
+      ("nomem", lambda e, t: e.get("k") == "MethodCall" and e["name"] == "is_none" and "uses_memory_location" in t),
+      ("mem", lambda e, t: e.get("k") == "MethodCall" and e["name"] == "is_some" and "uses_memory_location" in t),
+      ("orig", lambda e, t: e.get("k") == "MethodCall" and e["name"] == "is_original_value")],
+     lambda v: v["saved"] and v["nomem"] and v["orig"], ["saved", "nomem", "orig"], "a non-memory read of a saved register that still holds the caller's value"),
+    ("StackCheckPass", "InvalidStackOffsetUsage",
+     [("base_sp", lambda e, t: e.get("k") == "Binary" and e["op"] == "Eq" and _mentions_path(e, "Register::X2")),
+      ("base_other", lambda e, t: e.get("k") == "Binary" and e["op"] == "Ne" and _mentions_path(e, "Register::X2")),
+      ("nonneg", lambda e, t: e.get("k") == "Binary" and e["op"] == "Ge" and lit_value(e["b"]) == 0),
+      ("neg", lambda e, t: e.get("k") == "Binary" and e["op"] == "Lt" and lit_value(e["b"]) == 0)],
+     lambda v: v["base_sp"] and v["nonneg"], ["base_sp", "nonneg"], "a memory access through sp at or above the entry stack pointer"),
+]
+
+
+@rule("C05", "C05.l.lint-trigger-conditions", floor=5)
+def c05l(F, R):
+    """the innermost condition under which each of these lints pushes its diagnostic is evaluated for every combination of its atomic tests and compared with the violation it stands for (a write to x0 that is not exempt; a written register that is not live; an ecall whose number is unknown; a non-memory read of a saved register holding the caller's value; an sp-relative access at or above the entry sp): an inverted or dropped test leaves the lint registered and silent"""
+    from .p_cfg import pass_impls, LINTPASS
+    from .p_parse import parent_map
+    import itertools
+    LE = "riscv_analysis::passes::lint_error::LintError"
+    lints = pass_impls(F, LINTPASS)
+    for suffix, variant, spec, expected, atoms, what in TRIGGERS:
+        rp = [v for t, v in lints.items() if t.endswith(suffix)]
+        if not rp:
+            R.bad(f"{suffix}|missing", f"lint {suffix} not found", None)
+            continue
+        g = F.fn(rp[0])
+        body = g["hir"]["value"]
+        pm = parent_map(body)
+        pushes = [p_ for p_ in walk(body, pats=False) if p_.get("k") == "MethodCall" and p_["name"] == "push" and p_["args"] and any((callee_of(c) or "") == f"{LE}::{variant}" for c in walk(p_["args"][0], pats=False) if c.get("k") == "Call")]
+        if len(pushes) != 1:
+            R.bad(f"{suffix}|{variant}|shape", f"UNEXTRACTABLE: expected one push of {variant} in {suffix}, found {len(pushes)}", g["sp"])
+            continue
+        # the innermost enclosing `if` with a boolean (non-`let`) condition
+        x = pushes[0]
+        conds = []
+        while id(x) in pm:
+            par = pm[id(x)]
+            if par.get("k") == "If":
+                c = par["cond"]
+                while c.get("k") in ("DropTemps", "Use"):
+                    c = c["e"]
+                if c.get("k") != "LetExpr":
+                    in_then = any(y is x for y in walk(par["then"], pats=False)) or par["then"] is x
+                    conds.append((c, in_then))
+                    break
+            x = par
+        if not conds:
+            R.bad(f"{suffix}|{variant}|shape", f"UNEXTRACTABLE: the push of {variant} is not under a boolean condition", loc(pushes[0]))
+            continue
+        c, in_then = conds[0]
+        classify = _text_atoms(spec)
+        names = [n_ for n_, _ in spec]
+        wrong = []
+        try:
+            for vals in itertools.product((True, False), repeat=len(atoms)):
+                env = dict(zip(atoms, vals))
+                # complementary atoms
+                for a_, b_ in (("nomem", "mem"), ("unknown", "known"), ("base_sp", "base_other"), ("nonneg", "neg")):
+                    if a_ in env:
+                        env[b_] = not env[a_]
+                r = bool_eval(c, classify, env)
+                if not in_then:
+                    r = not r
+                if r != expected(env):
+                    wrong.append(", ".join(f"{k}={v}" for k, v in env.items() if k in atoms) + f" -> {r}")
+        except BoolUnx as ex:
+            R.bad(f"{suffix}|{variant}|unextractable", f"UNEXTRACTABLE: trigger condition of {variant} in {suffix} ({ex})", loc(c))
+            continue
+        if wrong:
+            R.bad(f"{suffix}|{variant}", f"{suffix} reports {variant} under the wrong condition ({wrong[0]}; {len(wrong)} of {2 ** len(atoms)} combinations differ): it stands for {what}", loc(c))
+        else:
+            R.ok(f"{suffix}|{variant}", detail=f"fires exactly for {what}", where=loc(c))
+
+
+@rule("C05", "C05.m.no-loop-over-a-collection-known-to-be-empty", floor=2)
+def c05m(F, R):
+    """a lint that guards its work with an emptiness test runs it when the collection is *not* empty: a `for x in C` (or `C.iter()`) nested under a condition that holds only when `C.is_empty()` can never do anything - `if !garbage.is_empty()` with the `!` lost silences the lint for reads of registers that were never assigned"""
+    from .p_cfg import pass_impls, LINTPASS
+    from .p_parse import parent_map
+    lints = pass_impls(F, LINTPASS)
+    n = 0
+    for ty, rp in sorted(lints.items()):
+        g = F.fns.get(rp)
+        if not g or "hir" not in g:
+            continue
+        body = g["hir"]["value"]
+        pm = parent_map(body)
+        for iff in walk(body, pats=False):
+            if iff.get("k") != "If":
+                continue
+            empt = [m for m in walk(iff["cond"], pats=False) if m.get("k") == "MethodCall" and m["name"] == "is_empty" and peel(m["recv"]).get("k") == "Path" and peel(m["recv"]).get("res_kind") == "Local"]
+            if not empt:
+                continue
+            for m in empt:
+                C = peel(m["recv"])["res"]
+
+                def classify(e, m=m):
+                    return "empty" if e is m or peel(e) is m else None
+                try:
+                    t_when_empty = bool_eval(iff["cond"], classify, {"empty": True})
+                    t_when_full = bool_eval(iff["cond"], classify, {"empty": False})
+                except BoolUnx:
+                    continue
+                uses_in = lambda blk: [fl for fl in for_loops(blk) if any(x.get("k") == "Path" and x.get("res") == C for x in walk(fl["iter"], pats=False))] if blk else []
+                n += 1
+                key = f"{short(ty)}|{C}"
+                dead_then = t_when_empty and not t_when_full and uses_in(iff["then"])
+                dead_else = (not t_when_empty) and t_when_full and iff.get("else") is not None and uses_in(iff["else"])
+                if dead_then or dead_else:
+                    R.bad(key, f"{short(ty)} loops over `{C}` in a branch that is only taken when `{C}` is empty: nothing in that loop can run, so what it reports is never reported", loc(iff))
+                else:
+                    R.ok(key, detail=f"`{C}` is walked where it can be non-empty", where=loc(iff))
+    if n == 0:
+        raise Anchor("no emptiness guard found in the lints (the rule would pass vacuously)")
